@@ -637,12 +637,12 @@ def _kinds(node, acc):
     return acc
 
 
-def has_empty_site(node, run):
+def has_empty_site(node, run, include_branches=True):
     """does the program have code that this execution does not run (another switch branch, a masked-off
     call, a zero-length map), i.e. addresses that are traceable but hold no choice in a complete sample?"""
     if len(run.terms) == 0:
         return True
-    if _kinds(node, set()) & {"switch", "or_else", "mix"}:
+    if include_branches and _kinds(node, set()) & {"switch", "or_else", "mix"}:
         return True
     if run.masked_off:
         return True
@@ -907,6 +907,10 @@ def check_trace_against_model(tr, node, nargs, asg, klass_prefix, case, Violatio
         run = ref_run(node, nargs, dict_lookup(asg, fallback=fb, fresh=fresh))
     except Missing as m:
         raise Violation(klass_prefix + "missing-choice", f"the reference execution visits {m.path} but the model/trace has no value there", case)
+    if any(not math.isfinite(lp) for (_p, _v, lp) in run.terms):
+        from vpbt.ctx import OutOfDomain
+
+        raise OutOfDomain("a choice lies outside the support of its distribution")
     for path, v, _lp in run.terms:
         got = chm_get(chm, path)
         if got is None:
